@@ -813,6 +813,11 @@ pub(crate) fn parse_time(source: &str) -> TemporalResult<TimeRecord> {
                 return Err(TemporalError::range()
                     .with_message("UTC designator is not valid for DateTime parsing."));
             }
+            if is_ambiguous_time(source) {
+                return Err(TemporalError::range().with_message(
+                    "Time string is ambiguous with a year-month or month-day string; use the T prefix.",
+                ));
+            }
             return time.time.temporal_unwrap();
         }
         Err(e) => TemporalError::range().with_message(format!("{e}")),
@@ -824,6 +829,32 @@ pub(crate) fn parse_time(source: &str) -> TemporalResult<TimeRecord> {
         Ok(dt) if dt.time.is_some() => Ok(dt.time.temporal_unwrap()?),
         // Format and return the error from parsing Time.
         _ => Err(time_err),
+    }
+}
+
+/// A time string without the `T` prefix must not also read as `DateSpecYearMonth` or
+/// `DateSpecMonthDay` (e.g. `2020-01`, `01-01`, `1231`).
+fn is_ambiguous_time(source: &str) -> bool {
+    if source.starts_with(['T', 't']) {
+        return false;
+    }
+    // only the part before the annotations takes part in the comparison
+    let head = source.split('[').next().unwrap_or(source);
+    if IxdtfParser::from_str(head).parse_year_month().is_ok() {
+        return true;
+    }
+    match IxdtfParser::from_str(head).parse_month_day() {
+        Ok(IxdtfParseRecord {
+            date: Some(date), ..
+        }) => {
+            let max_day = match date.month {
+                2 => 29,
+                4 | 6 | 9 | 11 => 30,
+                _ => 31,
+            };
+            (1..=max_day).contains(&date.day)
+        }
+        _ => false,
     }
 }
 
